@@ -76,7 +76,8 @@ fn thread_work(tid: u64, creations: usize, record: bool) -> (Vec<u32>, Vec<u64>,
                 }
                 made += 1;
                 // attach it at the end through the public root field
-                let single = Treap { root: Some(Box::new(n)) };
+                let mut single: Treap<KeyItem> = Treap::new();
+                single.root = Some(Box::new(n));
                 t = Treap::merge(std::mem::take(&mut t), single);
                 model.push(key);
                 ops += 1;
